@@ -126,7 +126,7 @@ impl Property for C11 {
             real: &["src/dirs.rs (select_ids, Directory, RecursiveDirectory, iter, iter_cached)", "src/anycache.rs (raw_source, nested loads)"],
             stub: &["Source: in-memory generated tree; read_dir returns entries in an arbitrary fixed order; chosen sub-directories fail to list (fault set)"],
             assumptions: &["single simulated thread: the simulated part is the faultable read_dir seam, the rest is generated input (stated in DESIGN §7 C11)", "archive-backed directories are exercised by C04's sources"],
-            runs: (12_000, 600_000),
+            runs: (200_000, 6_000_000),
         }
     }
     fn generate(&self, g: &mut SplitMix, k: &mut SplitMix, _tier: Tier) -> (Knobs, Value) {
